@@ -502,6 +502,58 @@ fn rand_dest(rng: &mut Rng) -> Dest {
     Dest { page, view }
 }
 
+/// `Stream<()>`: the stream dictionary (/Filter, /DecodeParms, /Length) of a typed stream must survive
+/// write → read → write. The data is never decoded here.
+fn law1_stream(or: &mut Oracle, desc: &str, filters: Vec<pdf::enc::StreamFilter>, data: Vec<u8>, replay: serde_json::Value) {
+    let r = std::panic::catch_unwind(std::panic::AssertUnwindSafe(|| {
+        let st: pdf::object::Stream<()> = pdf::object::Stream::from_compressed((), data, filters);
+        let mut up = RecUpdater::new(CREATED_BASE);
+        let p1 = match st.to_primitive(&mut up) {
+            Ok(p) => p,
+            Err(_) => return Ok("unwritable".to_string()),
+        };
+        let info1 = match &p1 {
+            Primitive::Stream(s) => s.info.clone(),
+            _ => return Err("not-a-stream: the writer did not produce a stream".to_string()),
+        };
+        let res = MemResolver::new(HashMap::new(), HashMap::new(), false);
+        let st2 = pdf::object::Stream::<()>::from_primitive(p1, &res).map_err(|e| format!("read-back-fails: {} (dictionary {})", e, show_plain(&Primitive::Dictionary(info1.clone()))))?;
+        let mut up2 = RecUpdater::new(CREATED_BASE);
+        let p2 = st2.to_primitive(&mut up2).map_err(|e| format!("second-write-fails: {}", e))?;
+        let info2 = match &p2 {
+            Primitive::Stream(s) => s.info.clone(),
+            _ => return Err("not-a-stream: second write".to_string()),
+        };
+        let (a, b) = (show_plain(&Primitive::Dictionary(info1)), show_plain(&Primitive::Dictionary(info2)));
+        if a != b {
+            return Err(format!("rewrite-differs: {} vs {}", a, b));
+        }
+        Ok("ok".to_string())
+    }));
+    or.case(&format!("Stream {}", desc), true, || json!({"type": "Stream<()>", "filters": desc}));
+    match r {
+        Ok(Ok(s)) => or.count(&format!("Stream<()>={}", s)),
+        Ok(Err(e)) => {
+            let kind = e.split(':').next().unwrap_or("").to_string();
+            or.fail(&format!("law1:Stream:{}", kind), &format!("Stream<()> with filters {}: {}", desc, e), replay)
+        }
+        Err(_) => or.fail("law1:Stream:panic", &format!("Stream<()> with filters {}: panic in to_primitive / from_primitive", desc), replay),
+    }
+}
+
+fn rand_filter(rng: &mut Rng) -> pdf::enc::StreamFilter {
+    use pdf::enc::*;
+    let lzw = |rng: &mut Rng| LZWFlateParams { predictor: *rng.pick(&[1, 2, 12]), n_components: 1 + rng.below(4) as i32, bits_per_component: 8, columns: 1 + rng.below(40) as i32, early_change: rng.below(2) as i32 };
+    match rng.below(6) {
+        0 => StreamFilter::ASCIIHexDecode,
+        1 => StreamFilter::ASCII85Decode,
+        2 => StreamFilter::FlateDecode(lzw(rng)),
+        3 => StreamFilter::LZWDecode(lzw(rng)),
+        4 => StreamFilter::RunLengthDecode,
+        _ => StreamFilter::DCTDecode(DCTDecodeParams { color_transform: if rng.chance(1, 2) { Some(rng.below(2) as i32) } else { None } }),
+    }
+}
+
 fn oracle_handwritten(seed: u64, n: u64, only: Option<u64>) -> Oracle {
     let mut or = Oracle::new("c15.law1.handwritten");
     let objs: HashMap<u64, Primitive> = HashMap::new();
@@ -595,6 +647,123 @@ fn oracle_handwritten(seed: u64, n: u64, only: Option<u64>) -> Oracle {
             };
             law1_value(&mut or, "ColorSpace", &format!("{:?}", cs), &cs, &objs, rp("ColorSpace"));
         }
+        // Font and PagesNode (hand-written readers / writers over derived parts): from generated dictionaries
+        {
+            let mut objs2: HashMap<u64, Primitive> = HashMap::new();
+            let mut descriptor = Dictionary::new();
+            descriptor.insert("Type", name_prim("FontDescriptor"));
+            descriptor.insert("FontName", name_prim(*rng.pick(NAMES)));
+            descriptor.insert("Flags", Primitive::Integer(rng.below(1 << 18) as i32));
+            descriptor.insert("FontBBox", Primitive::Array((0..4).map(|_| rand_number(&mut rng)).collect()));
+            descriptor.insert("ItalicAngle", rand_number(&mut rng));
+            if rng.chance(1, 2) {
+                descriptor.insert("Ascent", rand_number(&mut rng));
+            }
+            let mut font = Dictionary::new();
+            font.insert("Type", name_prim("Font"));
+            font.insert("BaseFont", name_prim(*rng.pick(NAMES)));
+            let kind = rng.below(4);
+            match kind {
+                0 | 1 => {
+                    font.insert("Subtype", name_prim(if kind == 0 { "Type1" } else { "TrueType" }));
+                    if rng.chance(2, 3) {
+                        let first = rng.below(200) as i32;
+                        let n = rng.usize(5);
+                        font.insert("FirstChar", Primitive::Integer(first));
+                        font.insert("LastChar", Primitive::Integer(first + n as i32));
+                        font.insert("Widths", Primitive::Array((0..n).map(|_| rand_number(&mut rng)).collect()));
+                    }
+                    if rng.chance(1, 2) {
+                        font.insert("FontDescriptor", Primitive::Dictionary(descriptor.clone()));
+                    }
+                    match rng.below(3) {
+                        0 => {
+                            font.insert("Encoding", name_prim("WinAnsiEncoding"));
+                        }
+                        1 => {
+                            let mut e = Dictionary::new();
+                            e.insert("BaseEncoding", name_prim("MacRomanEncoding"));
+                            e.insert("Differences", Primitive::Array(vec![Primitive::Integer(39), name_prim("A"), name_prim("B"), Primitive::Integer(96), name_prim("Foo")]));
+                            font.insert("Encoding", Primitive::Dictionary(e));
+                        }
+                        _ => {}
+                    }
+                }
+                2 => {
+                    font.insert("Subtype", name_prim("CIDFontType2"));
+                    font.insert("CIDSystemInfo", Primitive::Dictionary(rand_dict(&mut rng, 0)));
+                    font.insert("FontDescriptor", Primitive::Dictionary(descriptor.clone()));
+                    if rng.chance(1, 2) {
+                        font.insert("DW", rand_number(&mut rng));
+                    }
+                    font.insert("W", Primitive::Array(vec![Primitive::Integer(1), Primitive::Array(vec![rand_number(&mut rng), rand_number(&mut rng)])]));
+                    if rng.chance(1, 2) {
+                        font.insert("CIDToGIDMap", name_prim("Identity"));
+                    }
+                }
+                _ => {
+                    let mut cid = Dictionary::new();
+                    cid.insert("Type", name_prim("Font"));
+                    cid.insert("Subtype", name_prim("CIDFontType0"));
+                    cid.insert("BaseFont", name_prim("Inner"));
+                    cid.insert("CIDSystemInfo", Primitive::Dictionary(Dictionary::new()));
+                    cid.insert("FontDescriptor", Primitive::Dictionary(descriptor.clone()));
+                    objs2.insert(50, Primitive::Dictionary(cid));
+                    font.insert("Subtype", name_prim("Type0"));
+                    font.insert("Encoding", name_prim("Identity-H"));
+                    font.insert("DescendantFonts", Primitive::Array(vec![Primitive::Reference(PlainRef { id: 50, gen: 0 })]));
+                }
+            }
+            let p = Primitive::Dictionary(font);
+            let res = real_rt::<pdf::font::Font>(&p, &objs2, &HashMap::new(), false);
+            or.case(&format!("Font {}", show_plain(&p)), true, || json!({"type": "Font", "input": show_plain(&p), "answer": res.answer}));
+            let parts: Vec<&str> = res.answer.split(' ').collect();
+            if parts[0] != "ok" || parts[1] != parts[2] {
+                or.fail(&format!("law1:Font:{}", if parts[0] == "ok" { "rewrite-differs" } else { parts[0] }), &format!("Font from {}: {} ({})", trunc(&show_plain(&p)), trunc(&res.answer), res.err.clone().unwrap_or_default()), rp("Font"));
+            } else {
+                or.count("Font=ok");
+            }
+            // PagesNode: a page or a page-tree node
+            let mut node = Dictionary::new();
+            let mut objs3: HashMap<u64, Primitive> = HashMap::new();
+            let mut root = Dictionary::new();
+            root.insert("Type", name_prim("Pages"));
+            root.insert("Kids", Primitive::Array(vec![]));
+            root.insert("Count", Primitive::Integer(0));
+            objs3.insert(60, Primitive::Dictionary(root));
+            if rng.chance(1, 2) {
+                node.insert("Type", name_prim("Page"));
+                node.insert("Parent", Primitive::Reference(PlainRef { id: 60, gen: 0 }));
+                if rng.chance(1, 2) {
+                    node.insert("Rotate", Primitive::Integer(90 * rng.below(4) as i32));
+                }
+                node.insert("MediaBox", Primitive::Array((0..4).map(|_| rand_number(&mut rng)).collect()));
+            } else {
+                node.insert("Type", name_prim("Pages"));
+                node.insert("Kids", Primitive::Array(vec![Primitive::Reference(PlainRef { id: 61, gen: 0 })]));
+                node.insert("Count", Primitive::Integer(1));
+                if rng.chance(1, 2) {
+                    node.insert("Parent", Primitive::Reference(PlainRef { id: 60, gen: 0 }));
+                }
+            }
+            let p = Primitive::Dictionary(node);
+            let res = real_rt::<PagesNode>(&p, &objs3, &HashMap::new(), false);
+            or.case(&format!("PagesNode {}", show_plain(&p)), true, || json!({"type": "PagesNode", "input": show_plain(&p), "answer": res.answer}));
+            let parts: Vec<&str> = res.answer.split(' ').collect();
+            if parts[0] != "ok" || parts[1] != parts[2] {
+                or.fail(&format!("law1:PagesNode:{}", if parts[0] == "ok" { "rewrite-differs" } else { parts[0] }), &format!("PagesNode from {}: {} ({})", trunc(&show_plain(&p)), trunc(&res.answer), res.err.clone().unwrap_or_default()), rp("PagesNode"));
+            } else {
+                or.count("PagesNode=ok");
+            }
+        }
+        // typed streams: filter lists of length 0..3
+        {
+            let k = rng.usize(4);
+            let filters: Vec<pdf::enc::StreamFilter> = (0..k).map(|_| rand_filter(&mut rng)).collect();
+            let desc = format!("{:?}", filters);
+            let len = rng.usize(20);
+            law1_stream(&mut or, &desc, filters, rng.bytes(len), rp("Stream"));
+        }
     }
     or
 }
@@ -624,7 +793,7 @@ pub fn run(driver: &Driver, seed: u64, thorough: bool, replay: Option<&serde_jso
         }
         return rep;
     }
-    let k = if thorough { 40 } else { 1 };
+    let k = if thorough { 150 } else { 1 };
     rep.streams.push(rt_models(driver, &schemas, seed, 60 * k, None));
     rep.streams.push(rt_containers(driver, &schemas, seed, 60 * k));
     rep.streams.push(f32_stream(driver, seed, 700 * k));
